@@ -487,6 +487,47 @@ def g3y(rng):
                 ext={M: rng.randint(1, 3), N: rng.randint(1, 3), K: rng.randint(1, 6), J: rng.randint(1, 3)}, env={}, tags=["g3y"])
 
 
+def g3v(rng):
+    """two flatten() partitionings on the same tensor whose ranks interleave in its rank order (the order in which the two are
+    applied is a set iteration order)"""
+    K, J, M, I, N = rng.choice([("K", "J", "M", "I", "N"), ("H", "R", "P", "Q", "S")])
+    ra = [K, J, M, I]
+    rng.shuffle(ra)
+    rb = [K, N, J, I] if rng.random() < 0.6 else [K, J, I]
+    rng.shuffle(rb)
+    out = [M, N] if N in rb else [M]
+    decl = {"A": ra, "B": rb, "Z": out}
+    fs = [("t", "A", [V(r) for r in ra]), ("t", "B", [V(r) for r in rb])]
+    e = dict(out="Z", oidx=[V(r) for r in out], terms=[dict(kind="times", factors=fs, sel=None)])
+    t1 = [M, K] if rng.random() < 0.5 else [K, M]
+    t2 = [J, I] if rng.random() < 0.5 else [I, J]
+    parts = {"(%s, %s)" % tuple(t1): ["flatten()"], "(%s, %s)" % tuple(t2): ["flatten()"]}
+    loop = ["".join(t2)] + ([N] if N in rb else []) + ["".join(t1)]
+    rng.shuffle(loop)
+    return dict(decl=decl, eins=[e], mapping={"partitioning": {"Z": parts}, "loop-order": {"Z": loop}},
+                ext={K: rng.randint(1, 3), J: rng.randint(1, 3), M: rng.randint(1, 3), I: rng.randint(1, 3), N: rng.randint(1, 3)}, env={}, tags=["g3v"])
+
+
+def g3u(rng):
+    """flatten of (M, K0) of one operand; the OTHER operand is looked up by coordinate in a loop that is not the innermost one and
+    a later rank of it is split by occupancy (the fetched fiber feeds fromFiber/splitEqual, not a loop)"""
+    K, M, N = rng.choice([("K", "M", "N"), ("J", "I", "H")])
+    decl = {"A": [K, M], "B": [K, N], "Z": [M, N]}
+    fs = [("t", "A", [V(K), V(M)]), ("t", "B", [V(K), V(N)])]
+    if rng.random() < 0.5:
+        fs.reverse()
+    e = dict(out="Z", oidx=[V(M), V(N)], terms=[dict(kind="times", factors=fs, sel=None)])
+    parts = {K: ["uniform_shape(%d)" % rng.randint(2, 5)], "(%s, %s0)" % (M, K): ["flatten()"], N: ["uniform_occupancy(B.%d)" % rng.randint(1, 4)]}
+    flat = M + K + "0"
+    if rng.random() < 0.6:
+        parts[flat] = ["uniform_occupancy(A.%d)" % rng.randint(1, 5)]
+        loop = [K + "1", flat + "1", flat + "0", N + "1", N + "0"]
+    else:
+        loop = [K + "1", flat, N + "1", N + "0"]
+    return dict(decl=decl, eins=[e], mapping={"partitioning": {"Z": parts}, "loop-order": {"Z": loop}},
+                ext={K: rng.randint(1, 7), M: rng.randint(1, 4), N: rng.randint(1, 5)}, env={}, tags=["g3u"])
+
+
 def g3z(rng):
     """Z[m,n] = A[k,m] * B[k,n]: an output rank split dynamically into >= 3 levels (an intermediate M1I exists) and a
     second, independently partitioned rank after it (and optionally the contracted rank)"""
